@@ -1,5 +1,5 @@
 import PromModel.Suites.RaceSuite
-import PromProofs.CompactionMain
+import PromProofs.CompactionProgress
 /-
   C06 — Queries racing with compaction see each sample exactly once.
 
@@ -125,5 +125,85 @@ theorem reopened_reader_does_not_block (σ : State) (r r' : Reader) (a b hmin : 
       · simp at h; subst h; simp [hreg] at hr; obtain ⟨rfl, rfl⟩ := hr
         simp [ovl]; omega
   · simp at h
+
+theorem terminates_of_inv (n : Nat) : ∀ σ : State, Inv σ → quiet σ → mrank σ.mpc = n →
+    ∃ (acts : List MAct) (σ' : State), acts.length ≤ n ∧ run σ (acts.map Act.maint) = some σ' ∧
+      mrank σ'.mpc = 0 ∧ σ'.readers = σ.readers := by
+  induction n using Nat.strongRecOn with
+  | _ n ih =>
+    intro σ hi hq hn
+    by_cases h0 : mrank σ.mpc = 0
+    · exact ⟨[], σ, by simp, by simp [run], h0, rfl⟩
+    · obtain ⟨a, hen⟩ := enabled_of_quiet σ hi hq h0
+      obtain ⟨σ1, hs⟩ := Option.isSome_iff_exists.mp hen
+      have hlt := mstep_rank σ σ1 a hi.1 hs h0
+      have hi1 : Inv σ1 := step_inv σ σ1 (.maint a) hi (by simpa [step] using hs)
+      have hrd := mstep_readers σ σ1 a hs
+      have hq1 : quiet σ1 := by intro r hr; rw [hrd] at hr; exact hq r hr
+      obtain ⟨acts, σ', hlen, hrun, hz, hrs⟩ := ih (mrank σ1.mpc) (by omega) σ1 hi1 hq1 rfl
+      refine ⟨a :: acts, σ', by simp; omega, ?_, hz, by rw [hrs, hrd]⟩
+      simp only [List.map_cons, run, step, hs]
+      exact hrun
+
+/-- **maintenance_terminates_when_readers_close.** In a reachable state in which every query has closed
+    (or not started), the maintenance thread is never disabled — each of its waits
+    (`WaitForPendingReadersInTimeRange`, `WaitForPendingReadersForOOOChunksAtOrBefore`, `Block.Close`) and
+    each of its `db.mtx.Lock` sections is enabled — and every step decreases the rank `mrank`: the running
+    job (head compaction + truncation, OOO compaction + truncation, block compaction / deletion) completes
+    within `mrank σ.mpc` steps. The waits depend only on readers that are registered (`reg`, `oooReg`,
+    pinned blocks); `reopened_reader_does_not_block` shows that readers arriving after the truncation flag
+    was published do not stay in that set. Assumption of the liveness claim: readers eventually close. -/
+theorem maintenance_terminates_when_readers_close (σ : State) (hreach : Reachable σ) (hq : quiet σ) :
+    ∃ (acts : List MAct) (σ' : State), acts.length ≤ mrank σ.mpc ∧
+      run σ (acts.map Act.maint) = some σ' ∧ mrank σ'.mpc = 0 :=
+  let ⟨acts, σ', h1, h2, h3, _⟩ := terminates_of_inv (mrank σ.mpc) σ (reachable_inv σ hreach) hq rfl
+  ⟨acts, σ', h1, h2, h3⟩
+
+/-- With the readers closed none of the reader-dependent guards is false. -/
+theorem waits_enabled_when_readers_closed (σ : State) (hreach : Reachable σ) (hq : quiet σ) :
+    noLockHeld σ = true ∧ (∀ T, headWaitDone σ T = true) ∧ (∀ r, oooWaitDone σ r = true)
+      ∧ ∀ p, blockFree σ p = true :=
+  ⟨noLock_of_quiet σ hq, headWait_of_quiet σ (reachable_inv σ hreach) hq,
+   oooWait_of_quiet σ (reachable_inv σ hreach) hq, blockFree_of_quiet σ hq⟩
+
+/-! ### Non-vacuity: a concrete schedule, and what the waits are for -/
+
+def exData : List Sample :=
+  [⟨0, 0, 1, false, 0⟩, ⟨0, 500, 2, false, 0⟩, ⟨0, 1000, 3, false, 0⟩, ⟨0, 1500, 4, false, 0⟩, ⟨0, 250, 5, true, 1⟩]
+
+def exInit : State := initState exData 0 250 250
+
+/-- Reader 0 over [0,1500] is opened first and is still iterating while the head is compacted up to 1000;
+    reader 1 over [400,1200] arrives while the truncation flag is set and re-opens its head part at 1000. -/
+def exActs : List Act :=
+  [.spawn 0 1500, .reader 0 .rlock, .reader 0 .readMin, .reader 0 .register, .reader 0 .loadFlag,
+   .reader 0 .trackOOO, .reader 0 .runlock,
+   .maint (.hWrite 0 1000 1), .maint .hSwap, .maint .hStoreTrunc, .maint .hSetFlag,
+   .spawn 400 1200, .reader 1 .rlock, .reader 1 .readMin, .reader 1 .register, .reader 1 .loadFlag,
+   .reader 1 .loadTrunc, .reader 1 .trackOOO, .reader 1 .runlock]
+
+example : initOk exData 0 250 250 = true := by decide
+
+/-- The schedule is executable (the hypotheses of the theorems are satisfiable by a non-trivial state)… -/
+example : ((run exInit exActs).map fun σ => σ.readers.map fun r =>
+      (decide (r.pc = .reading), r.headLo, r.blocks.map (·.id), r.reg.map (·.1)))
+    = some [(true, some 0, [], some 0), (true, some 1000, [1], some 1000)] := by decide
+
+/-- …both readers see exactly their committed samples there… -/
+example : ((run exInit exActs).map fun σ => σ.readers.map fun r => (view σ r).map (·.t))
+    = some [[0, 500, 1000, 1500, 250], [1000, 500]] := by decide
+
+/-- …the truncation's wait is blocked by reader 0 (registered before the flag was published) and only by
+    it: reader 1, which arrived later and overlaps the truncated range too, does not block. -/
+example : run exInit (exActs ++ [.maint .hWait]) = none := by decide
+example : (run exInit (exActs ++ [.reader 0 .close, .maint .hWait, .maint .hSetMin, .maint (.hGc 1000 250),
+            .maint .hClear])).isSome = true := by decide
+
+/-- What the wait is for: force the truncation past `hWait` while reader 0 is still open (a state the
+    protocol cannot reach) and reader 0, which holds no block, no longer sees the samples at 0 and 500. -/
+theorem skipping_the_wait_loses_samples_witness :
+    ((run exInit exActs).bind fun σ =>
+        run { σ with mpc := .hWaited 1000 } [.maint .hSetMin, .maint (.hGc 1000 250)]).map
+      (fun σ => (σ.readers.take 1).map fun r => (view σ r).map (·.t)) = some [[1000, 1500, 250]] := by decide
 
 end Prom.C06
